@@ -1,1 +1,39 @@
-From RxVerif Require Import Base.Prelude Ops.Machine Ops.Multi Ops.Combinators.
+(* C11 -- merging keeps each inner order and completes when all complete.
+   Refinement: for EVERY number of sources and EVERY input sequence (any
+   interleaving, non-conforming sources, ticks, dispose), what merge's
+   subscriber receives -- and at which input position -- is [merge_spec], a
+   ten-line fold over the interleaving: every element of a still-running source
+   passes at its own instant (so each source's order and timing is kept), the
+   first error ends everything, completion comes with the last running
+   source's completion, notifications of terminated sources are ignored. *)
+From RxVerif Require Import Base.Prelude Ops.Machine Ops.Multi Ops.MultiFacts Ops.RunLemmas
+  Ops.Combinators Ops.MergeFacts.
+
+Theorem C11_merge_refines_spec : forall A n (ins : list (Z * inp A)),
+  temitted (fst (run (x_merge n) ins))
+  = match n with O => [(0%nat, Done)] | _ => merge_spec (seq 0 n) 1 ins end.
+Proof. exact @merge_refines_spec. Qed.
+Print Assumptions C11_merge_refines_spec.
+
+(* every emitted element is an input element, emitted at that input's position *)
+Theorem C11_merge_emits_only_source_elements_in_place :
+  forall A running pos (ins : list (Z * inp A)) p x,
+    In (p, Next x) (merge_spec running pos ins) ->
+    exists k now, nth_error ins (p - pos) = Some (now, ISrc k (Next x)) /\ (pos <= p)%nat.
+Proof. exact @merge_spec_sound. Qed.
+Print Assumptions C11_merge_emits_only_source_elements_in_place.
+
+(* completion only after every running source completed *)
+Theorem C11_merge_completes_after_all : forall A (ins : list (Z * inp A)) running pos p,
+  In (p, Done) (merge_spec running pos ins) ->
+  forall k, In k running ->
+  exists q now, (q <= p - pos)%nat /\ nth_error ins q = Some (now, ISrc k Done).
+Proof. exact @merge_spec_complete. Qed.
+Print Assumptions C11_merge_completes_after_all.
+
+Example C11_witness :
+  temitted (fst (run (x_merge 2)
+     [(0, ISrc 1%nat (Next 7)); (0, ISrc 0%nat (Next 3)); (0, ISrc 1%nat Done); (0, ISrc 1%nat (Next 9));
+      (0, ISrc 0%nat (Next 4)); (0, ISrc 0%nat Done)]))
+  = [(1%nat, Next 7); (2%nat, Next 3); (5%nat, Next 4); (6%nat, Done)].
+Proof. vm_compute. reflexivity. Qed.
